@@ -151,7 +151,7 @@ fn run(db: &QDb, q: &str, limit: Option<Limit>) -> Outcome {
 
 pub fn c33(tier: Tier) -> i32 {
     let rep = Report::new("C33", tier);
-    let sizes: Vec<usize> = if tier == Tier::Thorough { (0..=40).collect() } else { vec![0, 1, 2, 3, 4, 5, 6, 7, 9, 12, 16, 20, 36] };
+    let sizes: Vec<usize> = if tier == Tier::Thorough { (0..=130).collect() } else { (0..=40).collect() };
     rep.rule(&format!("{} queries with large intermediate results relative to the limits (cartesian products, UNWIND of ranges, variable-length expansion, aggregation, ORDER BY, DISTINCT, comprehensions, CALL {{}}, OPTIONAL MATCH, UNION, SKIP / LIMIT) on a fixed 5-node graph x every setting of one limit: max_intermediate_rows, max_collection_items, max_apply_rows_per_outer in {:?}, and the soft timeout expiring at EVERY timeout check position k = 0..=T (T = number of timeout checks of the unlimited run; the elapsed time is a scripted hook); oracle: the limited run returns exactly the rows of the unlimited run (same multiset; same sequence for ordered queries) or fails with ResourceLimitExceeded - never other rows, another error or a panic; after the scripted time has expired at most 8 further timeout checks happen, a constant of the operator pipeline depth that does not grow with the data (bounded extra work; the unlimited runs perform up to several dozen checks); non-trivial = limited runs that hit their limit", QUERIES.len(), sizes));
     let cases: Vec<(usize, Option<Limit>)> = {
         // placeholder list; timeout positions are added per query below
